@@ -66,9 +66,11 @@ def _ckey(a):
 
 
 def _akey(atom):
+    """ordering / identity key of an atom inside canonical keys: name plus a structural digest (the process runs with a
+    fixed hash seed).  Printing the nested key instead grows multiplicatively with the nesting depth of the atoms."""
     if isinstance(atom, App):
         if atom._ks is None:
-            atom._ks = repr(atom._k)
+            atom._ks = '%s#%016x' % (atom.name, hash(atom._k) & 0xFFFFFFFFFFFFFFFF)
         return atom._ks
     return repr(atom.key())
 
@@ -343,40 +345,81 @@ def walk_atoms(x, seen=None):
     return seen
 
 
-def subst(x, f):
-    """Rebuild x replacing atoms: f(atom) -> Rat or None (keep, but recurse into App args)."""
+def subst(x, f, memo=None):
+    """Rebuild x replacing atoms: f(atom) -> Rat or None (keep, but recurse into App args).  Results per atom are
+    memoised for the whole call (expressions share sub-terms heavily); parts nothing changes in are returned as is."""
+    if memo is None:
+        memo = {}
+    return _subst(x, f, memo)[0]
+
+
+def _subst(x, f, memo):
+    """(result, changed)"""
     if isinstance(x, Rat):
-        return _subst_poly(x.n, f) / _subst_poly(x.d, f) if not x.d.is_const() else _subst_poly(x.n, f)
-    if isinstance(x, App):
+        n, cn = _subst_poly(x.n, f, memo)
+        if x.d.is_const():
+            if not cn:
+                return x, False
+            return n / Rat(x.d), True
+        d, cd = _subst_poly(x.d, f, memo)
+        if not cn and not cd:
+            return x, False
+        return n / d, True
+    if isinstance(x, (App, Sym)):
+        hit = memo.get(x)
+        if hit is not None:
+            return hit
         r = f(x)
-        if r is not None:
-            return r
-        return Rat.atom(App(x.name, [subst_arg(a, f) for a in x.args]))
-    if isinstance(x, Sym):
-        r = f(x)
-        return r if r is not None else Rat.atom(x)
-    return x
+        changed = True
+        if r is None:
+            changed = False
+            if isinstance(x, App):
+                args = []
+                for a in x.args:
+                    b, cb = _subst_arg(a, f, memo)
+                    args.append(b)
+                    changed = changed or cb
+                r = Rat.atom(App(x.name, args)) if changed else Rat.atom(x)
+            else:
+                r = Rat.atom(x)
+        memo[x] = (r, changed)
+        return r, changed
+    return x, False
 
 
-def subst_arg(a, f):
-    if isinstance(a, Rat):
-        return subst(a, f)
+def subst_arg(a, f, memo=None):
+    if memo is None:
+        memo = {}
+    return _subst_arg(a, f, memo)[0]
+
+
+def _subst_arg(a, f, memo):
+    if isinstance(a, (Rat, App, Sym)):
+        return _subst(a, f, memo)
     if isinstance(a, tuple):
-        return tuple(subst_arg(y, f) for y in a)
-    if isinstance(a, (App, Sym)):
-        r = subst(a, f)
-        return r
-    return a
+        out = []
+        changed = False
+        for y in a:
+            b, cb = _subst_arg(y, f, memo)
+            out.append(b)
+            changed = changed or cb
+        return (tuple(out) if changed else a), changed
+    return a, False
 
 
-def _subst_poly(p, f):
+def _subst_poly(p, f, memo):
+    """(Rat for the polynomial with atoms replaced, changed)"""
+    changed = False
+    for m in p.t:
+        for a, pw in m:
+            if _subst(a, f, memo)[1]:
+                changed = True
+    if not changed:
+        return Rat(p), False
     out = Rat.const(0)
-    cache = {}
     for m, c in p.t.items():
         term = Rat.const(c)
         for a, pw in m:
-            if a not in cache:
-                cache[a] = subst(a, f)
-            term = term * (cache[a] ** pw)
+            term = term * (memo[a][0] ** pw)
         out = out + term
-    return out
+    return out, True
